@@ -557,7 +557,10 @@ impl<'a> Parser<'a> {
         Ok(())
     }
 
-    // every level of nesting in the resulting tree passes through here or through the loop in parse_op
+    // every level of recursion of the parser passes through here. The iterations of the loop in parse_op do not:
+    // they build a taller tree without recursing, which `built` bounds - counting them here as well made a chain
+    // cost the nesting left for its last operand, so that `(a + b + c) + [[..]]` could be accepted while the same
+    // tree written without the redundant parentheses (as expr() writes it) was rejected
     fn enter(&mut self) -> Result<()> {
         self.depth += 1;
         if self.depth > MAX_DEPTH {
@@ -647,7 +650,6 @@ impl<'a> Parser<'a> {
             if r_bp < cur_l_bp {
                 rhs = self.parse_op(r_bp, rhs)?;
             }
-            self.enter()?;
             self.built(lhs_height.max(self.height))?;
             lhs = ExprAST::Binary(op, Box::new(lhs), Box::new(rhs));
             if is_not {
